@@ -290,9 +290,25 @@ def _never_true_membership(fn, test) -> bool:
     for n in ast.walk(fn):
         if isinstance(n, ast.Call) and isinstance(n.func, ast.Attribute) and isinstance(n.func.value, ast.Name) and n.func.value.id == s_:
             if n.func.attr in ("update", "extend") and len(n.args) == 1 and isinstance(n.args[0], ast.Name):
-                src = [v for st, v in astq.assignments(fn, n.args[0].id) if v is not None]
-                # the collection handed over is a list of elements of another list (objects), or the result of a call
-                if src and all(isinstance(v, ast.List) and all(isinstance(e, ast.Subscript) for e in v.elts) or isinstance(v, ast.Call) for v in src):
+                # the collection handed over is a list of elements of another list (objects), or the result of a call; a plain
+                # alias (`loop = chain`) is followed, and whatever is appended to such a list must be an element of a list as well
+                def objects_only(name: str, depth: int = 0) -> bool:
+                    src = [v for st, v in astq.assignments(fn, name) if v is not None]
+                    if not src or depth > 3:
+                        return False
+                    for v in src:
+                        if isinstance(v, ast.Name):
+                            if not objects_only(v.id, depth + 1):
+                                return False
+                        elif not (isinstance(v, ast.List) and all(isinstance(e, ast.Subscript) for e in v.elts) or isinstance(v, ast.Call)):
+                            return False
+                    for c in ast.walk(fn):
+                        if isinstance(c, ast.Call) and isinstance(c.func, ast.Attribute) and isinstance(c.func.value, ast.Name) and c.func.value.id == name and c.func.attr in ("append", "insert", "extend", "add"):
+                            if not all(isinstance(x, ast.Subscript) for x in c.args[-1:]):
+                                return False
+                    return True
+
+                if objects_only(n.args[0].id):
                     continue
                 return False
             if n.func.attr in ("add", "append", "insert", "update", "extend"):
